@@ -150,6 +150,9 @@ class LocIndexer(Indexer):
 class LocBase(Blockwise):
     _parameters = ["frame", "iindexer", "cindexer"]
     operation = staticmethod(methods.loc)
+    # Output partition i reads input partition ``start + i`` (or a looked-up
+    # partition), so these operations cannot be part of a fused group
+    _fusable = False
 
     @functools.cached_property
     def _meta(self):
